@@ -721,6 +721,9 @@ func (vc *VC) execUnOp(fr *Frame, st *State, x *ssa.UnOp) {
 }
 
 func isStringT(t types.Type) bool {
+	if t == nil {
+		return false
+	}
 	b, ok := types.Unalias(t).Underlying().(*types.Basic)
 	return ok && b.Info()&types.IsString != 0
 }
